@@ -129,11 +129,24 @@ func (e *Env) eval(x Expr) (TV, error) {
 		return TV{ite(c, a.T, b.T), typ}, nil
 	case *EQuant:
 		v := quote("q:" + x.Var)
-		env := e.with(map[string]TV{x.Var: {Term{v, SInt}, tInt}})
+		vtyp, vsort, terr := e.quantVarType(x)
+		if terr != nil {
+			return TV{}, terr
+		}
+		env := e.with(map[string]TV{x.Var: {Term{v, vsort}, vtyp}})
 		env.bound = true
 		body, err := env.evalBool(x.Body)
 		if err != nil {
 			return TV{}, err
+		}
+		if vsort != SInt {
+			if x.Lo != nil {
+				return TV{}, fmt.Errorf("quantifier over %s cannot have a range", x.VType)
+			}
+			if x.Forall {
+				return TV{T(SBool, "(forall ((%s %s)) %s)", v, vsort, body.S), tBool}, nil
+			}
+			return TV{T(SBool, "(exists ((%s %s)) %s)", v, vsort, body.S), tBool}, nil
 		}
 		rng := tTrue
 		if x.Lo != nil {
@@ -429,6 +442,10 @@ func (e *Env) ident(name string) (TV, error) {
 	// local variable of the function (current value of its cell); inside
 	// old() parameters denote their entry values
 	if e.fr != nil {
+		// a name bound by "at call X let NAME = E" on this path
+		if t, ok := e.cellState().cells[letKey{name}]; ok {
+			return TV{t, e.fr.letTypes[name]}, nil
+		}
 		if e.inOld {
 			for _, p := range e.fr.fn.Params {
 				if p.Name() == name {
@@ -464,6 +481,27 @@ func (e *Env) ident(name string) (TV, error) {
 				e.vc.deadLocals[name] = t
 			}
 			return TV{t, typ}, nil
+		}
+	}
+	// a let name that is not bound on this path: one unconstrained value
+	if e.fr != nil && e.fr.contract != nil {
+		for _, cs := range e.fr.contract.CallSites {
+			if cs.Let != name {
+				continue
+			}
+			srt, known := e.fr.letSorts[name]
+			if !known {
+				return TV{}, fmt.Errorf("let name %q is used before a call that binds it", name)
+			}
+			if e.vc.deadLocals == nil {
+				e.vc.deadLocals = map[string]Term{}
+			}
+			t, have := e.vc.deadLocals["let:"+name]
+			if !have {
+				t = e.vc.fresh("deadlet:"+name, srt)
+				e.vc.deadLocals["let:"+name] = t
+			}
+			return TV{t, e.fr.letTypes[name]}, nil
 		}
 	}
 	// ghost state
@@ -755,6 +793,32 @@ func (e *Env) call(x *ECall) (TV, error) {
 			ref = sBase(ref)
 		}
 		return TV{and(le(e.old.wm, ref), lt(ref, e.st.wm)), tBool}, nil
+	case "isa":
+		// isa(x, "T"): the object x refers to was allocated with type T
+		// (struct type for pointers, map / slice / channel type otherwise)
+		if len(x.Args) != 2 {
+			return TV{}, fmt.Errorf("isa takes a reference and a type name")
+		}
+		v, err := e.eval(x.Args[0])
+		if err != nil {
+			return TV{}, err
+		}
+		lit, ok := x.Args[1].(*EStr)
+		if !ok {
+			return TV{}, fmt.Errorf("isa: second argument must be a type name string")
+		}
+		nerr := len(vc.errs)
+		t, _ := vc.lemmaParamType(e, lit.V)
+		if len(vc.errs) > nerr || t == nil {
+			vc.errs = vc.errs[:nerr]
+			return TV{}, fmt.Errorf("isa: unknown type %s", lit.V)
+		}
+		ref := v.T
+		if ref.Sort == SSlice {
+			ref = sBase(ref)
+		}
+		vc.declare("rtype", "(declare-fun rtype (Int) Int)")
+		return TV{eq(T(SInt, "(rtype %s)", ref.S), vc.typeTag(t)), tBool}, nil
 	case "loopfresh":
 		// loopfresh(x): x was allocated since the loop was entered (loop clauses)
 		if len(x.Args) != 1 {
@@ -1111,6 +1175,9 @@ func exprString(x Expr) string {
 		}
 		if x.Lo != nil {
 			return fmt.Sprintf("%s %s in %s..%s :: %s", q, x.Var, exprString(x.Lo), exprString(x.Hi), exprString(x.Body))
+		}
+		if x.VType != "" {
+			return fmt.Sprintf("%s %s %s :: %s", q, x.Var, x.VType, exprString(x.Body))
 		}
 		return fmt.Sprintf("%s %s :: %s", q, x.Var, exprString(x.Body))
 	case *ECond:
